@@ -7,6 +7,7 @@ Line protocol (one op per line):
   ev <defs> <hexexpr>               -> "V <n>" | "E div0|divov|invalid|fnmacro|other"     (simplecpp `#if` evaluator on the text)
   pp <q> <defs> <undefs> <hexsrc>   (q = four 0/1 flags: Quirks.vaComma, stringSpace, elifEval, pasteBlue; 1101 = the code since 8474bf0)
                                     -> "T <hex of output tokens joined by one space>" | "E <class>" | "X <why>" (outside the fragment)
+  mp <q> <hexsrc> <defs>+           -> "M <T hex | E.. | X..> ..."   `runPasses`: one result per pass
   sk <q> <defs> <undefs> <hexsrc>   -> "K <line numbers runC keeps on the skeleton> | <line numbers the directive loop keeps>" | "X .."
   cd <hex userDefines> <undefs> <hex cfg> <hexsrc>   -> same, through the model of createDUI
   spec|specpf <defs> <ast>          -> "<hex printed text> <S v u | U> <class> <V n | E cls>"   specification value, agreement class
@@ -126,6 +127,14 @@ def step (line : String) : String :=
     match parseList defs, parseList undefs, fromHex src with
     | some defs, some undefs, some src => ppOut (runFile (quirks q) defs undefs src)
     | _, _, _ => "bad-op"
+  | "mp" :: q :: src :: passes =>
+    match fromHex src, passes.mapM parseList with
+    | some src, some ds =>
+      "M " ++ " ".intercalate ((runPasses (quirks q) src (ds.map fun d => (d, []))).map fun r =>
+        match r with
+        | .ok l => "T" ++ toHex (joinToks l)
+        | .error e => (xerrStr e).replace " " "")
+    | _, _ => "bad-op"
   | ["sk", q, defs, undefs, src] =>
     -- the inclusion skeleton of the run: lines kept by the abstract machine runC on it vs lines kept by the directive loop
     match parseList defs, parseList undefs, fromHex src with
